@@ -70,6 +70,7 @@ type Layout struct {
 	Revisions    int    // 0/1, 2, 3
 	Order        string // "asc" | "desc" (descending object numbers, shuffled file order)
 	Unbalanced   bool   // first and last page directly under the root, the others one or two levels deeper
+	Shadow       bool   // every /Pages node above the holder of the inheritable attributes carries decoy /Resources and /MediaBox (the nearest definition must win)
 	PerPageFonts bool   // every page (with its forms) numbers its font resource names /F1.. by first use, so the same name means different fonts on different pages (requires Inherit=leaf)
 	Indirect     bool   // Resources, the Font dictionary, MediaBox and multi-stream /Contents arrays are indirect objects
 	EOL          string // "LF" | "CRLF" | "CR"
@@ -556,6 +557,19 @@ func Plan(doc Doc, lay Layout) File {
 		addStream(&objs, "tounicode", 0, lay, func() []byte { return cm.toUnicode(eol) })
 	}
 
+	if lay.Shadow {
+		// a font that turns every code into '?': text decoded through it is recognisably wrong
+		add(pending{key: "decoyfont", packOK: true, body: func(func(string) int) string {
+			var d strings.Builder
+			d.WriteString("<< /Type /Font /Subtype /Type1 /BaseFont /Helvetica /Encoding << /Type /Encoding /BaseEncoding /WinAnsiEncoding /Differences [33")
+			for c := 33; c < 256; c++ {
+				d.WriteString(" /question")
+			}
+			d.WriteString("] >> >>")
+			return d.String()
+		}})
+	}
+
 	// pages; with revisions >= 3 the last page is appended in revision 3 (if there are >= 2 pages)
 	np := len(doc.Pages)
 	appended := -1
@@ -774,6 +788,18 @@ func Plan(doc Doc, lay Layout) File {
 		}
 		return c
 	}
+	decoyAttrs := func(ref func(string) int) string {
+		var d strings.Builder
+		d.WriteString(" /MediaBox [0 0 10 10] /Resources << /Font <<")
+		for n := 1; n <= 9; n++ {
+			fmt.Fprintf(&d, " /F%d %d 0 R", n, ref("decoyfont"))
+		}
+		d.WriteString(" >> >>")
+		return d.String()
+	}
+	// a node is above the holder of the real attributes when the holder is the leaf (every node) or the
+	// leaf's parent (every node that is not itself the parent of a leaf)
+	var isLeafParentFn func(string) bool
 	pagesNode := func(key, parent string, withAttrs bool, rev, upto int) pending {
 		return pending{key: key, rev: rev, packOK: true, body: func(ref func(string) int) string {
 			s := "<< /Type /Pages"
@@ -790,6 +816,8 @@ func Plan(doc Doc, lay Layout) File {
 			s += fmt.Sprintf("] /Count %d", countOf(key, upto))
 			if withAttrs {
 				s += attrs(0, ref)
+			} else if lay.Shadow && (inherit == "leaf" || (inherit == "parent" && !isLeafParentFn(key))) {
+				s += decoyAttrs(ref)
 			}
 			return s + " >>"
 		}}
@@ -821,6 +849,7 @@ func Plan(doc Doc, lay Layout) File {
 		}
 		return false
 	}
+	isLeafParentFn = isLeafParent
 	for _, nd := range nodes {
 		withAttrs := (inherit == "parent" && isLeafParent(nd.key)) || (inherit == "root" && nd.key == "pages")
 		// a node is (re)written in revision 3 when the appended page changes its Kids/Count
